@@ -220,14 +220,14 @@ Definition do_reject (s : sess) (m : minput) (r : rej) : sess :=
   else
     send_in_reply_to s T_REJECT (reverse_route m) ref_seq (Some m).
 
-(* sendResendRequest: returns the resend state it computes (messageStash nil) *)
+(* sendResendRequest: returns the resend state it computes (with a fresh, empty messageStash) *)
 Definition send_resend_request (s : sess) (begin_seq end_seq : Z) : sess * sstate :=
   let chunk := c_chunk (s_cfg s) in
   let e0 := if chunk =? 0 then end_seq else begin_seq + chunk - 1 in
   let '(e, cur) := if e0 <? end_seq then (e0, e0)
                    else ((if c_begin (s_cfg s) <? 2 then 999999 else 0), 0) in
   let s1 := send s T_RESENDREQ [(7, itoa begin_seq); (16, itoa e)] in
-  (s1, SResend None cur end_seq).
+  (s1, SResend (Some []) cur end_seq).   (* the stash map is created with the state (fix 8c52052) *)
 Definition do_target_too_high (s : sess) (recv exp : Z) : sess * sstate := send_resend_request s exp (recv - 1).
 
 (* generateSequenceReset (in_session.go) *)
